@@ -22,7 +22,7 @@ import (
 
 // HStep is one request of a history.
 type HStep struct {
-	Transport string            `json:"transport"` // GET | POST | WS
+	Transport string            `json:"transport"` // GET | POST | WS (graphql-ws) | WS2 (graphql-transport-ws)
 	Ext       string            `json:"ext"`       // "" no extension | full (query + sha256Hash) | hash (sha256Hash only)
 	Query     string            `json:"query"`
 	OpName    string            `json:"op_name,omitempty"`
@@ -36,8 +36,8 @@ func sha256Hex(s string) string {
 
 // serveStep sends one request over the step's transport.
 func (w *apiWorld) serveStep(st HStep) (body, panicked, wsErr string) {
-	if st.Transport == "WS" {
-		return "", "", w.serveWS(Case{Query: st.Query, OpName: st.OpName, Vars: st.Vars})
+	if proto := wsProtocols[st.Transport]; proto != "" {
+		return "", "", w.serveWS(Case{Query: st.Query, OpName: st.OpName, Vars: st.Vars}, proto)
 	}
 	w.mu.Lock()
 	w.called, w.cost, w.resolved = false, 0, 0
@@ -126,7 +126,7 @@ func (h *harness) historyOne(c Case, verbose bool) *failure {
 			}
 			continue
 		}
-		if c.Config.Storage && st.Ext == "full" && st.Query != "" && st.Transport != "WS" {
+		if c.Config.Storage && st.Ext == "full" && st.Query != "" && wsProtocols[st.Transport] == "" {
 			registered[st.Query] = true
 		}
 		one := Case{Kind: "execute", Query: st.Query, OpName: st.OpName, Vars: st.Vars, Default: c.Config.Default, Max: -1}
@@ -201,7 +201,7 @@ func nVars(n, r int) map[string]VarVal {
 func (h *harness) histories(n int) {
 	type tr struct{ transport, ext string }
 	firsts := []tr{{"POST", "full"}, {"GET", "full"}}
-	seconds := []tr{{"POST", "full"}, {"GET", "full"}, {"POST", "hash"}, {"GET", "hash"}, {"POST", ""}, {"WS", ""}}
+	seconds := []tr{{"POST", "full"}, {"GET", "full"}, {"POST", "hash"}, {"GET", "hash"}, {"POST", ""}, {"WS", ""}, {"WS2", ""}}
 	// every configuration × first transport × second transport: the same query text again with other variables
 	for _, storage := range []bool{false, true} {
 		for _, features := range []bool{false, true} {
@@ -247,6 +247,9 @@ func (h *harness) histories(n int) {
 			if len(gd.Ops) == 1 {
 				names = append(names, "")
 			}
+			if r.Chance(1, 6) {
+				names = append(names, "Nope") // chooses nothing: cost 0
+			}
 			pool = append(pool, q{gd, gd.Render(), vars, names})
 		}
 		c := Case{Kind: "history", Config: cfg}
@@ -264,10 +267,12 @@ func (h *harness) histories(n int) {
 				st.Transport = "POST"
 			case y < 8:
 				st.Transport = "GET"
-			default:
+			case y < 9:
 				st.Transport = "WS"
+			default:
+				st.Transport = "WS2"
 			}
-			if st.Transport != "WS" {
+			if wsProtocols[st.Transport] == "" {
 				switch y := r.Intn(10); {
 				case y < 5:
 					st.Ext = "full"
